@@ -4,8 +4,8 @@ import PoolModel.Util
 Line-protocol driver for the C05 model.
 
 ```
-init accts=<key:outpoint:version:out,...> orders=<nonce:acct:allowed:notAllowed,...>     (a+b lists, - = empty)
-validate id= tid= v= snap= ins= outs= lock= diffs=<key:newOutpoint|-:newVersion:newOut|-,...> m=<nonce:node,...>
+init accts=<key:outpoint:version:out:expiry,...> orders=<nonce:acct:allowed:notAllowed,...>     (a+b lists, - = empty)
+validate id= tid= v= snap= ins= outs= lock= diffs=<key:newOutpoint|-:newVersion:newOut|-:newExpiry,...> m=<nonce:node,...>
 sign sf=<k|-> af=<k|-> st=<none|pre|inside> nonces=<a+b|-> prev=<csv|->
 finalize id= mf=<0|1>
 hsign parse=<0|1> chan=<0|1> send=<0|1> sf= af= st= nonces= prev=      (the handler's Sign case; output: the
@@ -35,9 +35,9 @@ def parseRecords (s : String) : Option (List (List String)) :=
   if s == "-" || s.isEmpty then some [] else some ((s.splitOn ",").map (·.splitOn ":"))
 
 def parseAcct : List String → Option Acct
-  | [k, op, v, o] => do
-    let k ← k.toNat?; let op ← op.toNat?; let v ← v.toNat?; let o ← o.toNat?
-    pure { key := k, outpoint := op, version := v, out := o }
+  | [k, op, v, o, e] => do
+    let k ← k.toNat?; let op ← op.toNat?; let v ← v.toNat?; let o ← o.toNat?; let e ← e.toNat?
+    pure { key := k, outpoint := op, version := v, out := o, expiry := e }
   | _ => none
 
 def parseOrd : List String → Option Ord
@@ -47,9 +47,9 @@ def parseOrd : List String → Option Ord
   | _ => none
 
 def parseDiff : List String → Option Diff
-  | [k, op, v, o] => do
-    let k ← k.toNat?; let op ← optNat op; let v ← v.toNat?; let o ← optNat o
-    pure { acct := k, newOutpoint := op, newVersion := v, newOut := o }
+  | [k, op, v, o, e] => do
+    let k ← k.toNat?; let op ← optNat op; let v ← v.toNat?; let o ← optNat o; let e ← e.toNat?
+    pure { acct := k, newOutpoint := op, newVersion := v, newOut := o, newExpiry := e }
   | _ => none
 
 def parseMatch : List String → Option (Nonce × Node)
@@ -117,7 +117,7 @@ def fmtRows (s : St) : String :=
       let o := match d.newOutpoint with
         | some _ => toString a.out
         | none => "-"
-      s!"{a.key}:{a.outpoint}:{a.version}:{o}"
+      s!"{a.key}:{a.outpoint}:{a.version}:{o}:{a.expiry}"
     if rows.isEmpty then "-" else joinWith "," rows
   | _, _ => "?"
 
